@@ -10,18 +10,16 @@ Variable pf : str -> option fl.
 Variables ff ff3 : fl -> str.
 Variable fi : Z -> str.
 Variable fh : N -> str.
-Variable B : sig.
-Variable PG : part (T_content B) (T_opts B) GR.groups.
-Variable PK : part (T_content B) (T_opts B) GR.kerning.
+Variable K : codecs.
 Hypothesis L1 : L1_glif pf ff ff3 fh.
 
 Local Notation close3 := (fun x y : fl => pf (chan ff3 x) = Some y).
 
-Lemma lift_ok {X} (p : part (T_content B) (T_opts B) X) : part_ok p -> part_ok (lift B p).
+Lemma lift_ok {X} (p : part (K_content K) (K_opts K) X) : part_ok p -> part_ok (lift K p).
 Proof.
   intros [R Sy T RT OI]. constructor; simpl; auto.
   - intros o x Hw. destruct (RT (snd o) x Hw) as [c [x' [H1 [H2 H3]]]].
-    exists (RBase B c), x'. rewrite H1. simpl. auto.
+    exists (RBase K c), x'. rewrite H1. simpl. auto.
   - intros o1 o2 x c1 c2 Hw H1 H2.
     destruct (enc p (snd o1) x) as [a|] eqn:E1; simpl in H1; [|discriminate].
     destruct (enc p (snd o2) x) as [b|] eqn:E2; simpl in H2; [|discriminate].
@@ -59,8 +57,8 @@ Proof. induction l; simpl; intros H; [reflexivity|]. rewrite H by auto. f_equal.
 
 (** the real glif codec: exact round trip on [wf_glyph] *)
 Lemma glif_rt : forall o g, wf_glyph pf ff3 g ->
-  exists c g', enc (P_glif_real pf ff ff3 fi fh B) o g = Some c /\
-               dec (P_glif_real pf ff ff3 fi fh B) c = Some g' /\ g = g'.
+  exists c g', enc (P_glif_real pf ff ff3 fi fh K) o g = Some c /\
+               dec (P_glif_real pf ff ff3 fi fh K) c = Some g' /\ g = g'.
 Proof.
   intros o g (GR & GF & LF & NS & CW & CH & CI & CG & CA & CK).
   destruct L1 as (H_ff & H_ff3 & H_fh).
@@ -93,8 +91,8 @@ Proof.
 Qed.
 
 Lemma glif_opts : forall o1 o2 g c1 c2, wf_glyph pf ff3 g ->
-  enc (P_glif_real pf ff ff3 fi fh B) o1 g = Some c1 -> enc (P_glif_real pf ff ff3 fi fh B) o2 g = Some c2 ->
-  dec (P_glif_real pf ff ff3 fi fh B) c1 = dec (P_glif_real pf ff ff3 fi fh B) c2.
+  enc (P_glif_real pf ff ff3 fi fh K) o1 g = Some c1 -> enc (P_glif_real pf ff ff3 fi fh K) o2 g = Some c2 ->
+  dec (P_glif_real pf ff ff3 fi fh K) c1 = dec (P_glif_real pf ff ff3 fi fh K) c2.
 Proof.
   intros o1 o2 g c1 c2 (_ & _ & LF & _) H1 H2. simpl in H1, H2.
   rewrite (encode_options_irrelevant ff fi ff3 fh (fst o1) (fst o2) g) in H1.
@@ -103,7 +101,7 @@ Proof.
     rewrite LB in Hl. simpl in Hl. inversion Hl. reflexivity.
 Qed.
 
-Lemma glif_real_ok : part_ok (P_glif_real pf ff ff3 fi fh B).
+Lemma glif_real_ok : part_ok (P_glif_real pf ff ff3 fi fh K).
 Proof.
   constructor.
   - reflexivity.
@@ -115,33 +113,67 @@ Qed.
 
 (** the laws of the signature for [real_sig]: the glif laws are proved, the others are those of the
     base signature *)
-Theorem real_sig_ok : base_laws B PG PK -> sig_ok (real_sig pf ff ff3 fi fh B PG PK).
+(** the dictionary algebra of the signature, for the real plist dictionaries *)
+Lemma pd_get_set : forall k k' v (d : dict),
+  alookup k (dict_insert k' v d) = if str_eqb k k' then Some v else alookup k d.
 Proof.
-  intros H. pose proof H as HH. destruct H. constructor; simpl in *;
-    try (apply lift_ok; assumption); try assumption.
+  intros k k' v d. induction d as [|[a x] d IH]; simpl.
+  - destruct (str_eqb k k'); reflexivity.
+  - destruct (str_eqb k' a) eqn:E; simpl.
+    + apply list_eqb_N_eq in E. subst a. destruct (str_eqb k k'); reflexivity.
+    + destruct (str_eqb k a) eqn:E2.
+      * apply list_eqb_N_eq in E2. subst a. rewrite str_eqb_sym, E. reflexivity.
+      * exact IH.
+Qed.
+Lemma pd_get_del : forall k k' (d : dict),
+  alookup k (pd_del k' d) = if str_eqb k k' then None else alookup k d.
+Proof.
+  intros k k' d. induction d as [|[a x] d IH]; simpl.
+  - destruct (str_eqb k k'); reflexivity.
+  - destruct (str_eqb a k') eqn:E; simpl.
+    + rewrite IH. destruct (str_eqb k k') eqn:E2; [reflexivity|].
+      apply list_eqb_N_eq in E. subst a. rewrite E2. reflexivity.
+    + rewrite IH. destruct (str_eqb k a) eqn:E3; [|reflexivity].
+      apply list_eqb_N_eq in E3. subst a. rewrite E. reflexivity.
+Qed.
+Lemma orel_eq_iff' {A} (a b : option A) : orel eq a b <-> a = b.
+Proof. destruct a, b; simpl; split; intros H; try congruence; try tauto; try discriminate. Qed.
+
+Theorem real_sig_ok : codecs_ok K -> sig_ok (real_sig pf ff ff3 fi fh K).
+Proof.
+  intros H. destruct H. constructor; simpl in *;
+    try (apply lift_ok; assumption); try assumption; try (intros; congruence).
   - (* the real font-info codec *) apply info_real_ok. reflexivity.
   - exact glif_real_ok.
   - (* info_eq_ids *) intros a b ->. destruct (snd b) as [l|]; simpl; [|exact I]. apply Forall2_refl_in. reflexivity.
+  - (* get_set *) exact pd_get_set.
+  - (* get_del *) exact pd_get_del.
+  - (* is_empty_get *) intros d. split.
+    + destruct d; [reflexivity|discriminate].
+    + destruct d as [|[k v] d]; [reflexivity|]. intros Hk. specialize (Hk k). simpl in Hk.
+      rewrite str_eqb_refl in Hk. discriminate.
+  - (* deq_get *) intros a b. unfold pd_eq. split; intros Hk k; [apply orel_eq_iff'|apply orel_eq_iff']; apply Hk.
+  - (* as_mk *) reflexivity.
+  - (* as_dict_veq *) intros v w ->. destruct w; simpl; try exact I. intros k. reflexivity.
+  - (* wf_as *) intros v d Hv Hd. destruct v; try discriminate. inversion Hd; subst. apply k_wf_as. exact Hv.
   - (* irest_dflt_spec *) exact info_is_none_spec.
   - (* info_dflt_wf *)
     unfold wf_sinfo. simpl. split; [reflexivity|]. split; [|split; vm_compute; reflexivity].
     unfold FI.info_wt. simpl. repeat split; intros; discriminate.
   - (* info_dflt_ok *) vm_compute. reflexivity.
-  - (* groups_empty_spec *) intros [|x g] Hg; [apply (peq_refl _ b_groups)|discriminate].
+  - (* groups_empty_spec *) intros [|x g] Hg; [apply (peq_refl _ k_groups)|discriminate].
   - (* groups_dflt_wf *) split; [assumption|reflexivity].
-  - (* kerning_empty_spec *) intros [|x k] Hk; [apply (peq_refl _ b_kerning)|discriminate].
-  - (* groups_ok_eq *) intros a b Hab. rewrite (b_groups_exact a b Hab). reflexivity.
+  - (* kerning_empty_spec *) intros [|x k] Hk; [apply (peq_refl _ k_kerning)|discriminate].
+  - (* groups_ok_eq *) intros a b Hab. rewrite (k_groups_exact a b Hab). reflexivity.
   - (* info_ok_stripped *) intros a b Hs. unfold info_ok_real. unfold stripped in Hs. simpl in Hs.
     unfold strip_g in Hs. inversion Hs as [[H1 H2]]. rewrite H1, H2. reflexivity.
   - intros [n w h cps note img gs as_ ks cs lib]. reflexivity.
-  - intros n a b ->. reflexivity.
-  - intros n g. reflexivity.
 Qed.
 
 (** ** the font-level theorems for the real signature *)
-Local Notation RS := (real_sig pf ff ff3 fi fh B PG PK).
+Local Notation RS := (real_sig pf ff ff3 fi fh K).
 
-Theorem roundtrip_real : base_laws B PG PK -> forall o (f : font RS),
+Theorem roundtrip_real : codecs_ok K -> forall o (f : font RS),
   font_valid RS f ->
   exists t, save RS o f = Ok t /\ spec_write RS norad_choices o f = Some t /\
             exists f', load RS t = Ok f' /\ font_equiv RS f f'.
@@ -162,12 +194,12 @@ Proof.
   simpl. f_equal; [apply glyph_entries_exact; exact Hg|exact IH].
 Qed.
 
-Theorem reads_spec_real : base_laws B PG PK -> forall c o (f : font RS),
+Theorem reads_spec_real : codecs_ok K -> forall c o (f : font RS),
   font_valid RS f ->
   exists t, spec_write RS c o f = Some t /\ exists f', load RS t = Ok f' /\ font_equiv RS f f'.
 Proof. intros HB. exact (load_spec_write RS (real_sig_ok HB)). Qed.
 
-Theorem spec_reader_real : base_laws B PG PK -> forall c o (f : font RS),
+Theorem spec_reader_real : codecs_ok K -> forall c o (f : font RS),
   font_valid RS f ->
   exists t, spec_write RS c o f = Some t /\ exists f', spec_read RS t = Some f' /\ font_equiv RS f f'.
 Proof. intros HB. exact (spec_read_spec_write RS (real_sig_ok HB)). Qed.
@@ -191,7 +223,7 @@ Proof.
   destruct (parse_rules pf doc g Ep) as [R1 R2]. exists g. simpl. auto.
 Qed.
 
-Lemma load_layer_parsed : forall (t : tree RS) e (l : layer (T_color B) (T_dict B) glyph),
+Lemma load_layer_parsed : forall (t : tree RS) e (l : layer (K_color K) dict glyph),
   load_layer RS t e = Ok l -> Forall parsed_entry (l_glyphs l).
 Proof.
   intros t e l H. unfold load_layer in H.
@@ -240,47 +272,52 @@ Qed.
 (** every lawful signature gives the base laws (so the hypothesis [base_laws] is satisfiable whenever
     [sig_ok] is) *)
 
-(** ** the remaining hypotheses are jointly satisfiable: the toy base with groups / kerning codecs
-    that write the real maps as nested dictionaries *)
-Require Import Norad.Model.FontToy Norad.Proofs.FontToyP.
+(** ** the remaining hypotheses are jointly satisfiable: codecs that keep the values as they are *)
+Inductive kcontent : Type :=
+| KMeta (m : meta) | KDict (d : dict) | KGroups (g : GR.groups) | KKerning (k : GR.kerning)
+| KPairs (l : list (str * str)) | KLi (v : option N * option dict).
+Definition kpart {X} (inj : X -> kcontent) (prj : kcontent -> option X) (e : X -> X -> Prop) : part kcontent N X :=
+  {| enc := fun _ x => Some (inj x); dec := prj; wf := fun _ => True; peq := e |}.
+Definition id_codecs : codecs := {|
+  K_content := kcontent; K_opts := N; K_color := N;
+  K_meta := kpart KMeta (fun c => match c with KMeta m => Some m | _ => None end) eq;
+  K_lib := kpart KDict (fun c => match c with KDict m => Some m | _ => None end) pd_eq;
+  K_groups := kpart KGroups (fun c => match c with KGroups m => Some m | _ => None end) eq;
+  K_kerning := kpart KKerning (fun c => match c with KKerning m => Some m | _ => None end) eq;
+  K_lc := kpart KPairs (fun c => match c with KPairs m => Some m | _ => None end) eq;
+  K_contents := kpart KPairs (fun c => match c with KPairs m => Some m | _ => None end) eq;
+  K_li := kpart KLi (fun c => match c with KLi m => Some m | _ => None end)
+                (fun a b => orel eq (fst a) (fst b) /\ orel pd_eq (snd a) (snd b));
+  K_ceq := eq; K_wf_color := fun _ => True; K_lc_entry_wf := fun _ => True;
+  K_wf_key := fun _ => True; K_wf_pv := fun _ => True; K_lower := fun x => x |}.
 
-Definition toy_enc_groups (g : GR.groups) : tdict :=
-  map (fun e => (fst e, TDict (map (fun n => (n, TLeaf 0)) (snd e)))) g.
-Definition toy_dec_groups (d : tdict) : option GR.groups :=
-  omapM (fun e : str * tpv => match snd e with TDict l => Some (fst e, map fst l) | TLeaf _ => None end) d.
-Definition toy_enc_kerning (k : GR.kerning) : tdict :=
-  map (fun e => (fst e, TDict (map (fun p => (fst p, TLeaf (snd p))) (snd e)))) k.
-Definition toy_dec_kerning (d : tdict) : option GR.kerning :=
-  omapM (fun e : str * tpv =>
-           match snd e with
-           | TDict l => option_map (fun row => (fst e, row))
-                          (omapM (fun p : str * tpv => match snd p with TLeaf n => Some (fst p, n) | TDict _ => None end) l)
-           | TLeaf _ => None
-           end) d.
-Definition toy_PG : part tcontent N GR.groups :=
-  mkpart (fun g => CDict (toy_enc_groups g)) (fun c => match c with CDict d => toy_dec_groups d | _ => None end) eq.
-Definition toy_PK : part tcontent N GR.kerning :=
-  mkpart (fun k => CDict (toy_enc_kerning k)) (fun c => match c with CDict d => toy_dec_kerning d | _ => None end) eq.
-
-Lemma toy_groups_rt : forall g, toy_dec_groups (toy_enc_groups g) = Some g.
+Lemma kpart_ok {X} inj prj (e : X -> X -> Prop) :
+  (forall x, e x x) -> (forall x y, e x y -> e y x) -> (forall x y z, e x y -> e y z -> e x z) ->
+  (forall x, prj (inj x) = Some x) -> part_ok (kpart inj prj e).
 Proof.
-  induction g as [|[n ms] g IH]; [reflexivity|]. unfold toy_dec_groups, toy_enc_groups in *. simpl.
-  rewrite IH. simpl. rewrite map_map. simpl. rewrite map_id. reflexivity.
+  intros R Sy T P. constructor; simpl; auto.
+  - intros o x _. exists (inj x), x. auto.
+  - intros o1 o2 x c1 c2 _ H1 H2. congruence.
 Qed.
-Lemma toy_row_rt : forall row : list (str * N),
-  omapM (fun p : str * tpv => match snd p with TLeaf n => Some (fst p, n) | TDict _ => None end)
-        (map (fun p : str * N => (fst p, TLeaf (snd p))) row) = Some row.
-Proof. induction row as [|[a v] r IH]; [reflexivity|]. simpl. rewrite IH. reflexivity. Qed.
-Lemma toy_kerning_rt : forall k, toy_dec_kerning (toy_enc_kerning k) = Some k.
-Proof.
-  induction k as [|[n row] k IH]; [reflexivity|]. unfold toy_dec_kerning, toy_enc_kerning in *. simpl.
-  rewrite toy_row_rt. simpl. rewrite IH. reflexivity.
-Qed.
+Lemma pd_eq_refl : forall d, pd_eq d d. Proof. intros d k. reflexivity. Qed.
+Lemma pd_eq_sym : forall a b, pd_eq a b -> pd_eq b a. Proof. intros a b H k. symmetry. apply H. Qed.
+Lemma pd_eq_trans : forall a b c, pd_eq a b -> pd_eq b c -> pd_eq a c.
+Proof. intros a b c H1 H2 k. rewrite H1. apply H2. Qed.
 
-Theorem toy_base_laws : base_laws toy_sig toy_PG toy_PK.
+Theorem id_codecs_ok : codecs_ok id_codecs.
 Proof.
-  pose proof toy_ok as H. destruct H. constructor; try assumption.
-  - apply mkpart_ok; try congruence; try reflexivity. intros. apply toy_groups_rt.
-  - apply mkpart_ok; try congruence; try reflexivity. intros. apply toy_kerning_rt.
-  - intros a b H. exact H.
+  constructor; simpl;
+    try (apply kpart_ok; intros; solve [congruence | reflexivity | eauto using pd_eq_refl, pd_eq_sym, pd_eq_trans]);
+    try (intros; tauto); try exact I; try (intros; exact I).
+  - apply kpart_ok.
+    + intros [c l]. simpl. split; [apply orel_refl; reflexivity|apply orel_refl; apply pd_eq_refl].
+    + intros x y [H1 H2]. split; [apply orel_sym with (R := eq); [congruence|exact H1]|apply (orel_sym _ pd_eq_sym); exact H2].
+    + intros x y z [H1 H2] [H3 H4]. split.
+      * eapply (orel_trans eq); [intros; congruence| |]; eassumption.
+      * eapply (orel_trans _ pd_eq_trans); eassumption.
+    + reflexivity.
+  - intros l. split; intros _; [|exact I]. apply Forall_forall. intros; exact I.
+  - intros c ol. unfold real_wf_dict. simpl. split; intros; [split; intros; auto|exact I].
+  - intros d. unfold real_wf_dict. simpl. split; intros; auto.
+  - intros d _. unfold real_wf_dict. simpl. auto.
 Qed.
